@@ -7,6 +7,7 @@ import (
 	"encoding/json"
 	"flag"
 	"fmt"
+	"go/types"
 	"os"
 	"path/filepath"
 	"sort"
@@ -316,16 +317,16 @@ func cmdCheck(args []string) {
 	for i, v := range viols {
 		rp := filepath.Join(outDir, "replays", fmt.Sprintf("violation_%03d.json", i+1))
 		rec := map[string]interface{}{
-			"property":   *prop,
-			"obligation": v.Obl.Name,
-			"kind":       v.Obl.Kind,
-			"function":   v.Obl.Func,
-			"position":   v.Obl.Pos,
-			"clause":     v.Obl.Src,
-			"reason":     v.Reason,
+			"property":       *prop,
+			"obligation":     v.Obl.Name,
+			"kind":           v.Obl.Kind,
+			"function":       v.Obl.Func,
+			"position":       v.Obl.Pos,
+			"clause":         v.Obl.Src,
+			"reason":         v.Reason,
 			"solver_answers": v.Obl.Answers,
-			"model":      v.Obl.Model,
-			"config":     v.Obl.Config,
+			"model":          v.Obl.Model,
+			"config":         v.Obl.Config,
 		}
 		confirmed := false
 		if rr := tryReplay(*repo, v.Obl); rr != nil {
@@ -357,25 +358,25 @@ func cmdCheck(args []string) {
 		"wall_s":      time.Since(t0).Seconds(),
 		"violations":  len(viols),
 		"coverage": map[string]interface{}{
-			"obligations":              total,
-			"discharged":               discharged,
-			"checker_cmd":              fmt.Sprintf("/verif/bin/govc check -prop %s -tier %s", *prop, *tier),
-			"trusted_base":             trustedBase(*prop),
-			"functions_under_contract": underContract,
+			"obligations":                    total,
+			"discharged":                     discharged,
+			"checker_cmd":                    fmt.Sprintf("/verif/bin/govc check -prop %s -tier %s", *prop, *tier),
+			"trusted_base":                   trustedBase(*prop),
+			"functions_under_contract":       underContract,
 			"functions_under_contract_count": len(underContract),
-			"trusted_no_body":          trusted,
-			"attempted_not_claimed":    outside,
-			"by_backend":               byBackend,
-			"obligation_kinds":         byKind,
-			"solver_time_s":            solverS,
-			"solver_queries":           statQueries,
-			"samples":                  samples,
-			"vacuity":                  map[string]interface{}{"covers": covers, "failed": len(vacuity)},
-			"configs":                  tc.configs,
-			"known_findings_hit":       len(seen),
-			"demoted_user_invariants":  demoted,
-			"notes":                    dedup(notes),
-			"rule":                     "one obligation = one SMT query (hypotheses ∧ ¬goal expected unsat) generated from the typed AST of /repo's working tree for a function under contract",
+			"trusted_no_body":                trusted,
+			"attempted_not_claimed":          outside,
+			"by_backend":                     byBackend,
+			"obligation_kinds":               byKind,
+			"solver_time_s":                  solverS,
+			"solver_queries":                 statQueries,
+			"samples":                        samples,
+			"vacuity":                        map[string]interface{}{"covers": covers, "failed": len(vacuity)},
+			"configs":                        tc.configs,
+			"known_findings_hit":             len(seen),
+			"demoted_user_invariants":        demoted,
+			"notes":                          dedup(notes),
+			"rule":                           "one obligation = one SMT query (hypotheses ∧ ¬goal expected unsat) generated from the typed AST of /repo's working tree for a function under contract",
 		},
 		"assumptions": assumptionsFor(*prop),
 	}
@@ -461,4 +462,83 @@ type replayResult struct {
 
 func tryReplay(repo string, o *Obl) *replayResult { return nil }
 
-func (e *Engine) VerifyLemmas(prop string, timeoutMs int) []*Obl { return nil }
+// VerifyLemmas discharges the stand-alone lemmas of the contract files that
+// are attributed to prop ("" = all).
+func (e *Engine) VerifyLemmas(prop string, timeoutMs int) []*Obl {
+	var out []*Obl
+	for _, lm := range e.cs.Lemmas {
+		if prop != "" {
+			has := false
+			for _, p := range lm.Props {
+				if p.ID == prop {
+					has = true
+				}
+			}
+			if !has {
+				continue
+			}
+		}
+		pi := e.pkgs[lm.Pkg]
+		o := &Obl{Name: e.shortPkg(lm.Pkg) + "/lemma[" + lm.Name + "]", Kind: "lemma", Func: "lemma " + lm.Name, Pos: fmt.Sprintf("%s:%d", strings.TrimPrefix(lm.File, "/repo/"), lm.Line), Src: lm.Goal.Src, Config: e.tags}
+		for _, p := range lm.Props {
+			o.Props = append(o.Props, p.ID)
+		}
+		fx := &FuncCtx{eng: e, pkg: pi.pkg, info: pi.pkg.TypesInfo, cur: pi, short: o.Name, declSet: map[string]bool{}, freshN: map[string]int{}, oblNames: map[string]int{}, cfg: e.tags, ieee: lm.Floats == "ieee"}
+		fx.con = &Contract{Loops: map[int]*LoopSpec{}, Options: map[string]string{}}
+		st := &State{vars: map[types.Object]Val{}, heap: map[string]Term{}, written: tFalse}
+		fx.entry = st
+		env := &specEnv{fx: fx, cur: st, old: st, binds: map[string]sval{}}
+		func() {
+			defer func() {
+				if r := recover(); r != nil {
+					if u, ok := r.(unsupported); ok {
+						o.Status = "failed"
+						o.Src = "lemma outside subset: " + u.msg
+						return
+					}
+					panic(r)
+				}
+			}()
+			for _, v := range lm.Vars {
+				f := strings.Fields(v)
+				if len(f) == 0 {
+					continue
+				}
+				ty := "int"
+				if len(f) > 1 {
+					ty = f[1]
+				}
+				switch ty {
+				case "int":
+					env.binds[f[0]] = sval{fx.declConst("v_"+f[0], SInt), nil}
+				case "float64":
+					env.binds[f[0]] = sval{fx.declConst("v_"+f[0], SF64), types.Typ[types.Float64]}
+				case "bool":
+					env.binds[f[0]] = sval{fx.declConst("v_"+f[0], SBool), nil}
+				case "real":
+					env.binds[f[0]] = sval{fx.declConst("v_"+f[0], SReal), nil}
+				default:
+					fx.unsupportedf("lemma variable type %s", ty)
+				}
+			}
+			var hyps []Term
+			for _, h := range lm.Hyps {
+				hyps = append(hyps, fx.specBool(env, h.Expr))
+			}
+			goal := fx.specBool(env, lm.Goal.Expr)
+			// vacuity: hypotheses must be satisfiable
+			cq := fx.buildQuery(hyps, tFalse)
+			if r := solve(cq, 3000, false); r.Status == "unsat" {
+				o.Status = "failed"
+				o.Src = "lemma hypotheses are unsatisfiable (vacuous)"
+				return
+			}
+			o.query = fx.buildQuery(hyps, goal)
+		}()
+		if o.query != "" {
+			dischargeAll([]*Obl{o}, timeoutMs)
+		}
+		out = append(out, o)
+	}
+	return out
+}
